@@ -780,6 +780,9 @@ class ExcelCompiler:
             if str(excel_data.address) in self.cell_map:
                 # the range referred to is already built, keep its node
                 new_nodes = []
+            elif not excel_data.address.is_range:
+                # the unbounded range is bounded to a single cell
+                new_nodes = build_cell(excel_data)
             else:
                 self.range_todos.append(str(excel_data.address))
                 new_nodes = build_range(excel_data)
@@ -810,9 +813,13 @@ class ExcelCompiler:
             if cell_range.address.is_unbounded_range:
                 bounded_addr = str(self.eval(cell_range))
                 bounded_addr_cell = self.cell_map.get(bounded_addr)
-                if bounded_addr_cell.value is None:
-                    self._evaluate_range(bounded_addr)
-                data = bounded_addr_cell.value
+                if isinstance(bounded_addr_cell, _CellRange):
+                    if bounded_addr_cell.value is None:
+                        self._evaluate_range(bounded_addr)
+                    data = bounded_addr_cell.value
+                else:
+                    # bounded to a single cell: a 1x1 range
+                    data = ((self._evaluate(bounded_addr), ), )
 
             elif cell_range.formula is None:
                 data = tuple(
